@@ -16,3 +16,12 @@ def check(run, only=None):
         out = fw.merge_worker_results(results, RULE.format(h=2 if run.tier == "quick" else 3, p=len(reusemon.PROBES)))
         out["extra"]["histories"] = len(cs)
         run.add_bounded(out)
+    if only in (None, "P"):
+        from vlib.props import pcommon
+        from vlib.companions import reusec
+        import contracts.reuse as cr
+        pcommon.add_proof(run, "C15", cr.REUSE_C15, [reusec.run],
+                          "the per-parse reset at the start of GLRParser.parse and Parser.parse (P-blocks over the run of "
+                          "reset statements): whatever the previous parse left behind, the error list, the look-ahead / "
+                          "shifter / last-heads lists and the expected set are NEW empty containers (each its own object), "
+                          "the error-reporting / recovery flags are cleared and the frontier counter is 0")
